@@ -503,6 +503,8 @@ class MarkdownNormalizer(Renderer):
         return result
 
     def render_thematic_break(self, _element: block.ThematicBreak) -> str:
+        # Reset the skip flag since we're not rendering a blank line
+        self._skip_next_blank_line = False
         result = f"{self._prefix}* * *\n"
         self._prefix = self._second_prefix
         return result
@@ -555,6 +557,8 @@ class MarkdownNormalizer(Renderer):
         """Render a standard link reference definition:
         [label]: url "title"
         """
+        # Reset the skip flag since we're not rendering a blank line
+        self._skip_next_blank_line = False
         link_text = element.dest
         if element.title:
             # The title of a definition is kept as written, including its delimiters
@@ -705,6 +709,9 @@ class MarkdownNormalizer(Renderer):
         Render a GFM table. Does not do whitespace padding and normalizes
         the delimiters to use three dashes consistently.
         """
+        # Reset the skip flag since we're not rendering a blank line
+        self._skip_next_blank_line = False
+
         lines: list[str] = []
         head, *body = element.children
         lines.append(self._prefix + self.render(head))
